@@ -187,14 +187,44 @@ func c12replication(r *kernel.Run, seed uint64) {
 	s := newVSim(r)
 	defer s.shutdown()
 	s.w.EagerDag = r.Choose(2) == 0
+	// groups of all types: multi-member (as created, or an invitation without the link-key signature), contact, account
+	gkind := r.Choose(4)
 	nmembers := 2 + r.Choose(2)
+	if gkind >= 2 {
+		nmembers = 2
+	}
 	for i := 0; i < nmembers; i++ {
-		if _, err := s.addNode(fmt.Sprintf("m%d", i), 8); err != nil {
+		n, err := s.addNode(fmt.Sprintf("m%d", i), 8)
+		if err != nil {
 			r.Infra("node: %v", err)
 			return
 		}
+		if gkind == 3 && i == 1 {
+			if err := n.importAccountFrom(s.nodes[0]); err != nil {
+				r.Infra("import: %v", err)
+				return
+			}
+		}
 	}
-	g, _, err := protocoltypes.NewGroupMultiMember()
+	var g *protocoltypes.Group
+	var err error
+	switch gkind {
+	case 0:
+		g, _, err = protocoltypes.NewGroupMultiMember()
+	case 1:
+		g, _, err = protocoltypes.NewGroupMultiMember()
+		if err == nil {
+			g.LinkKeySig = nil
+		}
+	case 2:
+		var pk crypto.PubKey
+		if ag, _, e := s.nodes[1].ss.GetGroupForAccount(); e == nil {
+			pk, _ = ag.GetPubKey()
+		}
+		g, err = s.nodes[0].ss.GetGroupForContact(pk)
+	default:
+		g, _, err = s.nodes[0].ss.GetGroupForAccount()
+	}
 	if err != nil {
 		r.Infra("group: %v", err)
 		return
@@ -249,7 +279,8 @@ func c12replication(r *kernel.Run, seed uint64) {
 		return
 	}
 	s.connectAll()
-	r.Logf("replication: members=%d eagerdag=%v", nmembers, s.w.EagerDag)
+	r.Logf("replication: group kind=%d members=%d eagerdag=%v", gkind, nmembers, s.w.EagerDag)
+	r.Probe(fmt.Sprintf("replication_group_kind_%d", gkind))
 	// a random group session: members announce chain keys and write metadata and messages
 	var metaEnvs, msgEnvs [][]byte
 	nops := 2 + s.r.Choose(10)
